@@ -23,7 +23,7 @@ type vService struct {
 }
 
 func (s *vService) RegisterResponseCallback(string, service.ResponseCallback) error { return nil }
-func (s *vService) RegisterStateCallback(string, service.StateCallback) error      { return nil }
+func (s *vService) RegisterStateCallback(string, service.StateCallback) error       { return nil }
 func (s *vService) StartRequestContext(ctx sdk.Context, id tmbytes.HexBytes, consumer sdk.AccAddress) error {
 	if s.startFails {
 		return servicetypes.ErrUnknownRequestContext
@@ -31,7 +31,9 @@ func (s *vService) StartRequestContext(ctx sdk.Context, id tmbytes.HexBytes, con
 	s.started = append(s.started, id.String())
 	return nil
 }
-func (s *vService) ServiceBindingsIterator(ctx sdk.Context, name string) storetypes.Iterator { return nil }
+func (s *vService) ServiceBindingsIterator(ctx sdk.Context, name string) storetypes.Iterator {
+	return nil
+}
 
 // C18/C13: a request made at height h0 with interval n sits under (h0+n, id); the begin-block of
 // height h0+n+1 fulfils exactly the requests queued at h0+n, once, and removes them; requests at other
